@@ -66,6 +66,7 @@ fn scenario_for(property: &str, name: &str, thorough: bool, known: &Known) -> Op
             Box::new(c12::scenario(known.open_for("C12")))
         }
         ("C13", "core-alphabet") => Box::new(props_session::c13(known, false)),
+        ("C13", "lock-queue") => Box::new(props_session::c13_locks(known)),
         ("C13", "serve-pipelined") => Box::new(c13serve::scenario(known, true)),
         ("C13", _) => Box::new(props_session::c13(known, true)),
         ("C17", "adversary-core") => Box::new(props_session::c17(known, false)),
@@ -306,6 +307,12 @@ fn main() {
                     Box::new(c13serve::scenario(&known, true)),
                     Tiered { quick: lim(2, 2, false, 40), thorough: lim(3, 2, false, 500) },
                     "tree",
+                ),
+                (
+                    "lock-queue".into(),
+                    Box::new(props_session::c13_locks(&known)),
+                    Tiered { quick: lim(7, 3, true, 30), thorough: lim(10, 5, true, 400) },
+                    "graph",
                 ),
                 (
                     "core-alphabet".into(),
